@@ -140,7 +140,7 @@ MORE8 = {
     "C08": REQ + " A requirement moved to another version must change the fingerprints of the targets that reach it. Values that hold the same text as str and as bytes.",
     "C11": "Also: the bare-major spelling path@v1 / path@v0; after a 'latest' get that is not a lowering request the build list holds at least the latest version.",
     "C15": "Also: an invocation that only loads the project between the corruption and the build (always for the record of an interrupted target, whose must-re-run field is covered with every mask).",
-    "C18": "Also: a lone 'missing dependency' failure must belong to a target that itself names a missing label.",
+    "C18": "Also: a lone 'missing dependency' failure must belong to a target that itself names a missing label; a seventh of the builds go through the REPL's run(label, always=, dry_run=, callback=) builtin, and the event structs its channel-based adapter hands to the Starlark callback are checked against the same protocol.",
     "C20": "Also: in half of the runs releasing a lock is a yield point, so that TryLock / TryRLock can observe a lock held over a critical section without inner synchronisation.",
     "C04": "Also: in a third of the runs releasing a lock is a yield point of the simulator.",
     "C05": "Also: in a third of the runs releasing a lock is a yield point of the simulator.",
